@@ -5,6 +5,7 @@ Tie to /repo: trace refinement — real runs are re-executed by `Tree.step`, sta
 sprout-stage outputs are diffed (harness/refine.py); only disagreements that bear on this
 property count.  Direct monitor of the property on the same kind of runs (harness/monitors.py).
 """
+import numpy as np
 from .. import refine, runs
 
 MODULE = 'PyhmsVerif.Props.C02Log'
@@ -27,7 +28,90 @@ def run(ctx):
         # objects shared between levels: a child built from its parent's individual must not write
         # into it — visible when the levels use different objectives or when a shared budget runs out
         runs.monitor_batch(ctx, PID, ctx.size(50, 500), salt=29, name="traced-runs-monitor-C02(local-or-population-leaves,per-level-objectives-or-exhausted-budget)", force=_shared_objects),
+        slice_contracted(ctx, ctx.rng(31), ctx.size(300, 4000)),
     ]
+
+
+def slice_contracted(ctx, rng, n_cases):
+    """Engine-level runs on a *contracted* population (what a deme looks like after many
+    generations): parents within 1e-9 .. 1e-3 of one point that is not the origin, several
+    generations in a row.  Every individual an engine hands back must carry exactly the objective
+    value of its own genome — a tolerance in a "did this row change?" test, or an offspring that
+    keeps its parent's value, shows here and nowhere in a short whole run."""
+    from pyhms.core.individual import Individual
+    from pyhms.core.problem import FunctionProblem
+    from pyhms.demes.single_pop_eas.de import DE, SHADE
+    from pyhms.demes.single_pop_eas import sea as S
+    from ..common import Slice
+
+    sl = Slice("engine-runs-on-contracted-populations(stored fitness = objective of the stored genome)")
+    for _ in range(n_cases):
+        mx = bool(rng.random() < 0.5)
+        n = int(rng.integers(5, 13))
+        d = int(rng.integers(2, 5))
+        centre = rng.uniform(-4, 4, d)
+        spread = float(rng.choice([1e-9, 1e-8, 1e-7, 1e-6, 1e-4, 1e-3]))
+        offset = float(rng.choice([0.0, 250.0]))
+
+        def f(x, offset=offset):
+            x = np.asarray(x, dtype=float)
+            return offset + float(np.sum((x - 1.0) ** 2)) + float(np.sum(np.cos(3.0 * x)))
+
+        bounds = np.array([[-5.0, 5.0]] * d)
+        prob = FunctionProblem(f, bounds=bounds, maximize=mx)
+        parents = [Individual(np.clip(centre + spread * rng.normal(size=d), -5, 5), problem=prob) for _ in range(n)]
+        for q in parents:
+            q.evaluate()
+        np.random.seed(int(rng.integers(1 << 30)))
+        import random as _r
+
+        _r.seed(int(rng.integers(1 << 30)))
+        which = int(rng.integers(0, 7))
+        kw = {}
+        if which == 0:
+            eng = DE(use_dither=False, crossover_probability=float(rng.choice([0.9, 0.5])), f=0.8)
+        elif which == 1:
+            eng = DE(use_dither=True, crossover_probability=0.5)
+        elif which == 2:
+            eng = SHADE(memory_size=4, population_size=n)
+        elif which == 3:
+            eng = S.SEA.create(problem=prob, mutation_std=spread, p_mutation=float(rng.choice([1.0, 0.5])), k_elites=int(rng.integers(1, 3)))
+        elif which == 4:
+            eng = S.SEAWithCrossover.create(problem=prob, mutation_std=spread, p_mutation=float(rng.choice([1.0, 0.5])), p_crossover=0.7, k_elites=1)
+        elif which == 5:
+            eng = S.GAStyleSEA.create(problem=prob, p_mutation=0.3, p_crossover=0.7, k_elites=1)
+        else:
+            eng = S.SEAWithAdaptiveMutation.create(problem=prob, p_mutation=float(rng.choice([1.0, 0.5])), k_elites=1)
+            kw = {"mutation_std": spread}
+        name = type(eng).__name__
+        pop = parents
+        bad = None
+        try:
+            for g in range(int(rng.integers(2, 6))):
+                pop = eng.run(pop, **kw)
+                for ind in pop:
+                    true = f(ind.genome)
+                    if not (ind.fitness == true):
+                        bad = (g, [float(t) for t in ind.genome], float(ind.fitness), true)
+                        break
+                if bad:
+                    break
+        except Exception as e:  # noqa: BLE001
+            from ..common import is_env_crash
+
+            if is_env_crash(e):
+                sl.skipped += 1
+                continue
+            raise
+        sl.cases += 1
+        sl.count(name)
+        sl.count(f"spread={spread:g}")
+        sl.nontrivial.add((name, spread, offset, mx, n, d, tuple(np.round(centre, 6))))
+        if bad:
+            sl.violations.append({"signature": "C02/stale-fitness-in-engine-run", "detail": f"{name} on a population within {spread:g} of one point: generation {bad[0] + 1} contains genome {bad[1]} with stored fitness {bad[2]!r} but the objective there is {bad[3]!r}", "replay": {"engine": name, "spread": spread, "offset": offset, "maximize": mx}})
+        if sl.cases <= 2:
+            sl.sample({"engine": name, "n": n, "d": d, "spread": spread, "offset": offset, "maximize": mx})
+    return sl
 
 
 def _shared_objects(rng):
